@@ -8,7 +8,7 @@ open GopModel.FS
 /-! Line protocol of `drv_fs` (property C26).
 
 Operation lists: comma separated, modes octal, `p`/`t` = path / temp file:
-`st` | `ct:<mode>` | `ow:<p|t>:<creat><excl><trunc as 0/1>:<mode>` | `w` | `cf:<mode|o>` |
+`st` | `ls` | `ct:<mode>` | `ow:<p|t>:<creat><excl><trunc as 0/1>:<mode>` | `w` | `cf:<mode|o>` |
 `cn:<p|t>:<mode|o>` | `sy` | `cl` | `rm:<p|t>` | `rn:<p|t>:<p|t>`   (`o` = the permission bits seen by `st`)
 
 * `fsprog <mode>`: the operations of the GENERATED program when every call succeeds, without
@@ -48,6 +48,7 @@ def bit (b : Bool) : String := if b then "1" else "0"
 
 def showOp (orig : Option Nat) : Op → String
   | .stat => "st"
+  | .lstat => "ls"
   | .createTemp m => "ct:" ++ octOfNat m
   | .openW r c e t m => "ow:" ++ showRef r ++ ":" ++ bit c ++ bit e ++ bit t ++ ":" ++ octOfNat m
   | .write => "w"
@@ -61,6 +62,7 @@ def showOp (orig : Option Nat) : Op → String
 def parseOp (s : String) : Option Op :=
   match s.splitOn ":" with
   | ["st"] => some .stat
+  | ["ls"] => some .lstat
   | ["ct", m] => (natOfOct m).map Op.createTemp
   | ["ow", r, f, m] =>
     match parseRef r, f.toList, natOfOct m with
@@ -95,7 +97,7 @@ def handleFsProg (fields : List String) : String :=
   | mode :: _ =>
     match natOfOct mode with
     | some m =>
-      showOps (some m) ((mainOps GopModel.Generated.FmtWrite.prog).filter (· != Op.stat))
+      showOps (some m) ((mainOps GopModel.Generated.FmtWrite.prog).filter (fun o => o != Op.stat && o != Op.lstat))
     | none => "bad-input"
   | _ => "bad-input"
 
